@@ -28,7 +28,8 @@ RULE = ("cases: seeded surfaces in phreeqc.dat and (one in four) wateq4f.dat wit
         "distinct & non-trivial = distinct (electrostatic option, site-type count, species whose mass action was evaluated)")
 ASSUME = ["physical constants are the manual's / engine's (F = 96493.5, R = 8.3147, eps0 = 8.854e-12)", "surface-species activities follow the mole-fraction convention the manual defines; "
           "all database species are monodentate so the convention cancels inside each reaction", "CD-MUSIC with Hfo: only the site balance (the database gives no charge-distribution parameters for Hfo); one case in eight uses a goethite-like CD-MUSIC surface defined in the input and judges the two capacitor laws and the site balance",
-          "runs that report an error are inconclusive"]
+          "runs that report an error are inconclusive",
+          "site balances carry an absolute floor of 1e-14 mol next to 1e-8 relative: the solver accepts a balance whose absolute residual is below KNOBS -tolerance (1e-15) whatever the total (model.cpp, residuals())"]
 
 F_C = 96493.5
 R_J = 8.3147
@@ -251,7 +252,7 @@ def run_kin(ctx, case):
                 continue
             tot = sum(v * kgw * db.composition(sp, db.surface_species).get(site, 0.0) for sp, v in mol.items())
             nchk += 1
-            if abs(tot - spm * m) > 1e-8 * spm * m:
+            if abs(tot - spm * m) > 1e-8 * spm * m + 1e-14:
                 findings.append(("C20/kinetic-surface/site-balance", "%s step %d: species of %s hold %.12g mol of sites, %g per mole x KIN = %.12g" % (case["id"], k + 1, site, tot, spm, spm * m)))
         area = apm * m
         q = sum(v * kgw * dbparse.charge_of(sp)[1] for sp, v in mol.items())
@@ -323,7 +324,7 @@ def run_case(ctx, case):
         for site, want in info["sites"].items():
             tot = sum(m * kgw * db.composition(sp, db.surface_species).get(site, 0.0) for sp, m in mol.items())
             nchk += 1
-            if abs(tot - want) > 1e-8 * want:
+            if abs(tot - want) > 1e-8 * want + 1e-14:      # 1e-14 mol: the solver accepts a site balance whose absolute residual is below KNOBS -tolerance (1e-15) whatever the total
                 findings.append(("C20/site-balance/%s" % site, "%s (%s): species of %s hold %.12g mol of sites, %.12g defined" % (case["id"], model, site, tot, want)))
         if model == "cd_music":
             sigs.add("cd_music|sites%d" % len(info["sites"]))
